@@ -42,6 +42,12 @@ def shape_tags(prog):
                 tags.add("aggr")
             if isinstance(t, dl.Adt) and t.args:
                 tags.add("adt-pattern")
+        def grab_head(t):
+            if isinstance(t, dl.Aggr):      # aggregates in head arguments; ADT terms in heads are constructors, not patterns
+                aggrs.append(t)
+                tags.add("aggr")
+        for h in c.heads:
+            dl.walk_lit_terms(h, grab_head)
         for l in c.body:
             dl.walk_lit_terms(l, grab)
         eqvars = {}
